@@ -7,7 +7,7 @@ CONSTANTS
   MaxSteps = 14
   MaxPend = 2
   Kinds = {"do","loop","forin","fn","pcall","co"}
-  Handlers = {"ok","raise","raisetbc","nil","false","nometa"}
+  Handlers = {"ok","raise","raisetbc","nil","false","nometa","lost"}
   ViewHist = 0
   ErrKinds = {"str","tbl"}
   XHandlers = {}
